@@ -7,6 +7,7 @@ CONSTANTS
   ManualKs = FALSE
   ManualDb = TRUE
   PersistShortcut = FALSE
+  SyncBatchSyncs = TRUE
   MaxFaults = 0
   EnPersistCall = TRUE
   FixPoisonAppend = TRUE
